@@ -64,7 +64,9 @@ func NewScriptedServer(port int) (*ScriptedServer, error) {
 func (s *ScriptedServer) Port() int { return s.ln.Addr().(*net.TCPAddr).Port }
 
 func (s *ScriptedServer) log(e SEvent) {
-	e.T = time.Since(s.start)
+	if e.T == 0 {
+		e.T = time.Since(s.start) // incoming messages carry their ARRIVAL time (set by the reader), not the time their turn came
+	}
 	s.mu.Lock()
 	s.events = append(s.events, e)
 	s.mu.Unlock()
@@ -154,8 +156,26 @@ func (ctl *sctl) send(m any) error {
 
 func (s *ScriptedServer) serveControl(ctl *sctl) {
 	defer ctl.conn.Close()
+	// a reader of its own stamps every message when it arrives; answering (which may sleep for "late" answers)
+	// happens in order behind it, so a slow answer never shifts the recorded send times of later messages
+	type arrival struct {
+		m   msg.Message
+		err error
+		at  time.Duration
+	}
+	in := make(chan arrival, 4096)
+	go func() {
+		for {
+			m, err := msg.ReadMsg(ctl.rw)
+			in <- arrival{m, err, time.Since(s.start)}
+			if err != nil {
+				return
+			}
+		}
+	}()
 	for {
-		m, err := msg.ReadMsg(ctl.rw)
+		a := <-in
+		m, err, at := a.m, a.err, a.at
 		if err != nil {
 			s.log(SEvent{Kind: "ControlClosed", Conn: ctl.id})
 			return
@@ -168,7 +188,7 @@ func (s *ScriptedServer) serveControl(ctl *sctl) {
 			fn := s.Reply
 			s.mu.Unlock()
 			cp := *v
-			s.log(SEvent{Kind: "NewProxy", Name: v.ProxyName, Msg: &cp, Conn: ctl.id})
+			s.log(SEvent{T: at, Kind: "NewProxy", Name: v.ProxyName, Msg: &cp, Conn: ctl.id})
 			kind, delay := "ok", time.Duration(0)
 			if fn != nil {
 				kind, delay = fn(v.ProxyName, att, v)
@@ -188,9 +208,9 @@ func (s *ScriptedServer) serveControl(ctl *sctl) {
 			s.log(SEvent{Kind: "Resp:" + kind, Name: resp.ProxyName, Conn: ctl.id})
 			_ = ctl.send(resp)
 		case *msg.CloseProxy:
-			s.log(SEvent{Kind: "CloseProxy", Name: v.ProxyName, Conn: ctl.id})
+			s.log(SEvent{T: at, Kind: "CloseProxy", Name: v.ProxyName, Conn: ctl.id})
 		case *msg.Ping:
-			s.log(SEvent{Kind: "Ping", Conn: ctl.id})
+			s.log(SEvent{T: at, Kind: "Ping", Conn: ctl.id})
 			s.mu.Lock()
 			mute := s.MutePong
 			s.mu.Unlock()
